@@ -95,12 +95,22 @@ pub fn render_file(samples: &[&SampleModel], p: &Presentation) -> (Vec<u8>, bool
         _ => {
             // member boundaries at PRNG-chosen offsets (may fall inside a header line)
             let mut r = Rng::new(p.seed ^ 0xABCD);
+            // empty members (own stream): bgzip ends every file with one, so `cat a.gz b.gz`
+            // has them in the middle; a third of the files get none
+            let mut re = Rng::new(p.seed ^ 0xE0F);
+            let empties = re.pct(66);
             let mut out = Vec::new();
             let mut at = 0;
+            if empties && re.pct(10) {
+                out.extend_from_slice(&gz_member(&[], 1));
+            }
             while at < text.len() {
                 let n = (r.range(1, 400) as usize).min(text.len() - at);
                 out.extend_from_slice(&gz_member(&text[at..at + n], 1));
                 at += n;
+                if empties && re.pct(12) {
+                    out.extend_from_slice(&gz_member(&[], 1));
+                }
             }
             if text.is_empty() {
                 out = gz_member(&text, 1);
